@@ -153,6 +153,8 @@ func (m *Machine) callFrom(caller *frame, fn value, args []value) value {
 		return m.callBuiltin(caller, fn, args)
 	case *nativeMethod:
 		return m.callNativeMethod(fn, args)
+	case *hostFunc:
+		return fn.fn(m, args)
 	}
 	panic(fmt.Sprintf("cannot call %T", fn))
 }
@@ -270,6 +272,9 @@ func (fr *frame) run() {
 		for _, instr := range instrs[first:] {
 			m.steps++
 			if m.steps > m.MaxSteps {
+				if m.HangIsViolation {
+					m.violation("hang", fmt.Sprintf("no termination within %d SSA instructions", m.MaxSteps))
+				}
 				m.incomplete("step budget exhausted (unwinding failure)")
 			}
 			if m.Trace {
